@@ -15,7 +15,12 @@ Require Import V.Proofs.C04Proofs.
 Require Import V.Proofs.C04Statements.
 Require Import V.Oracle.C04Oracle.
 Require Import V.Oracle.C18Oracle.
+Require Import V.Model.PubCases.
+Require Import V.Proofs.C04OracleProofs.
+Require Import V.Proofs.RenderWords.
+Require Import V.Proofs.C04Bytes.
 Require Import V.Proofs.C18Statements.
+Require Import V.Proofs.C18Inside.
 Open Scope Z_scope.
 
 (* offer_bulk bufs = offer (concat bufs): same result, same resulting state (hence the same frames, flags, payload bytes,
@@ -74,6 +79,56 @@ Theorem C18_oracle_equal : forall m rv s bufs, reachable m rv s -> total bufs <=
              (pub_obs m s (fst (pub_step m rv s (Offer (concat bufs)))) (snd (pub_step m rv s (Offer (concat bufs))))) = true.
 Proof. exact twin_equal_model. Qed.
 Print Assumptions C18_oracle_equal.
+
+(* ---- the inside part on rendered words (round 3): what the oracle reads ----
+   `content_inv` / `mtu_aligned` / `creachable`: see Props/C04.v (the active partition's content ends at the tail, MTU a multiple of
+   32; states reachable from an aligned hand-over point under the driver's cleaning contract).
+   Every word of the three partitions that differs after a vectored offer lies in [tail, tail + required) of the active partition
+   (accepted), is a word of the padding frame's header (end of term), or does not exist (refusal) - `twin_inside` is true on the
+   model's own observation; stated for every offer / claim / bulk offer, the vectored one is `o = Bulk bufs` *)
+Theorem C18_oracle_inside : forall m rv s n off o s0 r0 n0 off0,
+  pub_inv n off s -> content_inv (ps_log s) n off -> mtu_aligned (ps_log s) -> op_ok (ps_log s) o -> is_append o = true ->
+  twin_inside (geom_of (ps_log s) n0 off0) (op_len o) (pub_obs m s0 s r0)
+              (pub_obs m s (fst (pub_step m rv s o)) (snd (pub_step m rv s o))) = true.
+Proof. exact twin_inside_model. Qed.
+Print Assumptions C18_oracle_inside.
+
+(* the complete twin predicate (equality and inside) on the model's observations, from every state reachable under the cleaning
+   contract *)
+Theorem C18_oracle_twin : forall m rv s bufs s0 r0 n0 off0, creachable m rv s -> total bufs <= 1073741824 ->
+  holds_twin (geom_of (ps_log s) n0 off0) (total bufs) (pub_obs m s0 s r0)
+             (pub_obs m s (fst (pub_step m rv s (Bulk bufs))) (snd (pub_step m rv s (Bulk bufs))))
+             (pub_obs m s (fst (pub_step m rv s (Offer (concat bufs)))) (snd (pub_step m rv s (Offer (concat bufs))))) = true.
+Proof. exact holds_twin_model. Qed.
+Print Assumptions C18_oracle_twin.
+
+(* the exclusive appender's vectored append from every aligned hand-over point: `holds_xapp` (same result and log as the
+   contiguous append, every changed word inside [off0, off0 + aligned frame length), or inside the padding header when the
+   message does not fit) *)
+Theorem C18_oracle_xapp : forall m rv h bufs,
+  handover_ok h -> h_off0 h mod 32 = 0 -> total bufs <= h_mtu h - 32 ->
+  let l := handover_log h in
+  let idx := index_by_term_count (h_n0 h) in
+  let tid := wrap32 (h_init h + h_n0 h) in
+  holds_xapp (geom_of_handover h) (total bufs)
+             (xapp_obs l (eta_append_unfragmented_bulk m rv l idx tid (h_off0 h) bufs (total bufs)))
+             (xapp_obs l (eta_append_unfragmented m rv l idx tid (h_off0 h) (concat bufs))) = true.
+Proof. exact holds_xapp_model. Qed.
+Print Assumptions C18_oracle_xapp.
+
+(* non-vacuity of `creachable`: after a trip, a rotation, a fragmented offer and a claim the state is reachable under the contract *)
+Example C18_creachable_example :
+  let h := mkHandover 7 1024 96 11 22 4 960 in
+  let ops := [SetLimit 100000; Offer (payload 1 100); Clean; Offer (payload 2 100); Clean; Claim 8; Clean] in
+  creachable Debug harness_rv (pub_run Debug harness_rv (pub_init (handover_log h)) ops) /\
+  l_count (ps_log (pub_run Debug harness_rv (pub_init (handover_log h)) ops)) = 5.
+Proof. cbv zeta. split; [|vm_compute; reflexivity]. apply creachable_cleaned.
+  - unfold handover_ok, geometry_ok. cbn [h_init h_tlen h_mtu h_n0 h_off0].
+    split; [split; [exists 10; split; [lia|reflexivity]|]|]; vm_compute; repeat split; discriminate.
+  - split; reflexivity.
+  - unfold hist_ok. repeat (constructor; [vm_compute; try exact I; repeat split; discriminate|]). constructor.
+  - vm_compute. repeat split.
+Qed.
 
 (* non-vacuity / what the property is about: a 100-byte message cut 10 + 0 + 54 + 36 over a 64-byte payload gives the two
    fragments of the contiguous append; and the loops the repository had before the fix do not (witnesses) *)
